@@ -308,4 +308,11 @@ theorem c04_dependency_cover :
     Gen.ecUncovered.filter (fun p => !ecByDesign.contains p) = pinnedStale :=
   ⟨dependency_cover, uncovered_pinned.1⟩
 
+section NonVacuity
+/-- the hypotheses of the theorems above are met by the request and library of `Props/EnvCache.lean` and this
+sequence (further instances, out-of-scope sequences and the witnesses of the pinned residue are there) -/
+example : FreshW exWorld ∧ InvW {} exLib exWorld := ⟨FreshW.ofB (by decide), (FreshW.ofB (by decide)).inv {} exLib⟩
+example : ∀ op ∈ [Op.read 0 .contentLength, .setStr 0 kCL cs!"3", .read 0 .contentLength, .copy 0, .del 1 kCL, .read 1 .contentLength], opWithin [.contentLength] (fun _ => true) op = true := by decide
+end NonVacuity
+
 end Ombott.EnvCache
